@@ -1,5 +1,5 @@
 Require Extraction.
 Require Import ExtrOcamlBasic.
-From HV Require Import Obj.SceneGraph.
+From HV Require Import Obj.SceneGraph Obj.SceneGraphRef.
 Extraction Language OCaml.
-Extraction "c14_model.ml" init step.
+Extraction "c14_model.ml" init step ref_init ref_step.
